@@ -150,10 +150,42 @@ pub broadcast axiom fn axiom_string_to_string(s: String, r: String)
             C('C13 quoted-text-reads-back-as-the-value', 'reads_as(res@, s@)')])
         g.at_body_start(name, 'broadcast use axiom_string_to_string;')
         u.add(g)
+    # ---- a call site outside escape.rs: the xtrace text of an assigned value (variables.rs); the options handed to quote() are checked
+    #      against quote()'s precondition here, by the verifier, not by a text scan
+    vs = u.source('brush-core/src/variables.rs')
+    fn = 'fmt_scalar_for_tracing'
+    t = vs.method_anywhere(fn).r1()
+    t.resub(r"std::fmt::Formatter<'_>", 'VxFormatter', 'R8', 'fmt::Formatter -> stub with a ghost text', count=None)
+    t.resub(r'std::fmt::Result', 'Result<(), VxFmtError>', 'R8', 'fmt::Result spelled out over a stub error', count=None)
+    t.resub(r'\bescape::', '', 'R0', 'module path (the items are in this file)', count=None)
+    t.resub(r'write!\(f, "\{processed\}"\)', 'vx_write_display(f, &processed)', 'R8', 'write!(f, "{x}") -> stub appending the characters of x', count=None)
+    t.sig(fn, ret='res', requires=[C('aux value-has-no-NUL', 'no_nul(s@)')], ensures=[
+        C('C13 traced-assignment-value-reads-back-as-the-value', 'res is Ok ==> final(f).text() == old(f).text() + final(f).last_written() && reads_as(final(f).last_written(), s@)')])
+    u.raw('''#[verifier::external_body] pub struct VxFormatter { _p: u8 }
+#[verifier::external_body] pub struct VxFmtError { _p: u8 }
+impl VxFormatter { pub uninterp spec fn text(&self) -> Seq<char>; pub uninterp spec fn last_written(&self) -> Seq<char>; }
+#[verifier::external_body]
+pub fn vx_write_display(f: &mut VxFormatter, s: &String) -> (r: Result<(), VxFmtError>) ensures r is Ok ==> final(f).text() == old(f).text() + s@ && final(f).last_written() == s@ { unimplemented!() }
+''')
+    u.add(t)
+    # every other mention of the newline exemption in brush-core must be inside code that is under contract above
+    import os as _os
+    for root, _dirs, files in _os.walk(_os.path.join(repo, 'brush-core', 'src')):
+        for fnm in files:
+            rel = _os.path.relpath(_os.path.join(root, fnm), repo)
+            if not fnm.endswith('.rs') or rel == 'brush-core/src/escape.rs':
+                continue
+            txt = open(_os.path.join(root, fnm)).read()
+            n = len(re.findall(r'avoid_ansi_c_quoting_newline', txt))
+            if rel == 'brush-core/src/variables.rs':
+                n -= len(re.findall(r'avoid_ansi_c_quoting_newline', vs.text[vs.text.find('fn fmt_scalar_for_tracing'):vs.text.find('fn fmt_scalar_for_tracing') + 1200]))
+            if n > 0:
+                raise ExtractError('%s mentions avoid_ansi_c_quoting_newline outside the call sites under contract — quote()\'s precondition cannot be checked there' % rel)
     u.raw(FOOTER)
     u.assume('assume_specification', 'String::with_capacity(n) is empty; char::is_ascii_control is c <= 0x1f || c == 0x7f (std documented behaviour)')
     u.assume('external_body', 'R14 stubs str_any / str_first_is (the std predicate searches: true iff the predicate returned true for some / the first char), str_split_char (std str::split on a char), vx_fmt_backslash_octal3 (format!("\\\\{:03o}", byte)), vx_owned (String from &str/String with the same chars)')
     u.assume('axiom', 'a string has at most isize::MAX chars (needed for the R12 counter that replaces enumerate())')
+    u.assume('uninterp', 'VxFormatter::text / last_written (ghost: what has been written to the formatter)')
     u.assume('stub', 'every caller that assembles declare -p / set / alias / trap -p / xtrace lines around quote() are NOT verified; printf %q with other arguments goes through uucore (third party); the reader is a spec function written from POSIX 2.2/2.3 and the bash manual, not brush\'s or bash\'s parser; history expansion is off')
     u.expected_min_fns = 8
     return u
